@@ -1,6 +1,8 @@
 """C04 - commands on the wire mean what the vendor protocol says (DESIGN §6 C04)."""
 from __future__ import annotations
 
+import itertools
+
 import datetime
 
 from .. import console, explorer, runner
@@ -199,6 +201,48 @@ def run_installation(job):
         if variant == "one-mode" and rec["status"] == "ValueError":
             continue
         judge(rec, frames, kind, matcher, f"at{gen} {label} issued while the link was down", f"at{gen}:deferred:{label.split('.')[1].split('(')[0]}")
+    # several calls during ONE outage, including the same call repeated: every accepted call is one frame, and the
+    # frames arrive in the order of the calls (all 3-sequences over on/off for the AC and its first zone)
+    alpha = [("ac-on", lambda: ac.set_power(A.AcPowerControl.TURN_ON), "ac-control",
+              lambda r: cc.match_ac_control(gen, r, cc.ac_intent(a, power="on"))),
+             ("ac-off", lambda: ac.set_power(A.AcPowerControl.TURN_OFF), "ac-control",
+              lambda r: cc.match_ac_control(gen, r, cc.ac_intent(a, power="off")))]
+    if z is not None:
+        alpha += [("zone-on", lambda: z.set_power(A.ZonePowerState.ON), "zone-control",
+                   lambda r: cc.match_zone_control(gen, r, cc.zone_intent(zid, power="on"))),
+                  ("zone-off", lambda: z.set_power(A.ZonePowerState.OFF), "zone-control",
+                   lambda r: cc.match_zone_control(gen, r, cc.zone_intent(zid, power="off")))]
+    for seq in itertools.product(range(len(alpha)), repeat=3):
+        w.net.auto = None
+        w.net.live()[-1].peer_eof()
+        w.loop.settle()
+        n0 = len(w.console.requests)
+        recs = [w.call(alpha[i][1], alpha[i][0]) for i in seq]
+        w.loop.settle()
+        w.net.auto = "accept"
+        w.net.resolve_all(True)
+        w.loop.settle()
+        n += 3
+        names = [alpha[i][0] for i in seq]
+        label = f"at{gen} calls {names} issued during one outage"
+        frames = [r for r in w.console.requests[n0:] if not r[2].startswith("req-")]
+        if any(r["status"] != "returned" for r in recs):
+            bad.append((f"at{gen}:outage-sequence:rejected", f"{label}: call statuses {[r['status'] for r in recs]}"))
+            continue
+        if len(frames) != 3:
+            bad.append((f"at{gen}:outage-sequence:frame-count", f"{label}: {len(frames)} command frames after the re-connection"))
+            continue
+        for i, f in zip(seq, frames):
+            try:
+                kind, reading = cc.read_command(gen, f[3])
+            except Exception as e:  # noqa: BLE001
+                bad.append((f"at{gen}:outage-sequence:unreadable", f"{label}: {e}"))
+                break
+            pr = "wrong kind " + kind if kind != alpha[i][2] else alpha[i][3](reading)
+            if pr:
+                bad.append((f"at{gen}:outage-sequence:order-or-meaning", f"{label}: frame for {alpha[i][0]}: {pr}"))
+                break
+            seen.add((label, f[3].data))
     # the only frames ever seen must be the ones accounted for above (nothing unsolicited from the client)
     if w.loop.exc_reports:
         bad.append((f"at{gen}:loop-exception", f"{w.loop.exc_reports[:1]}"))
